@@ -393,11 +393,14 @@ pub fn exec(p: &[&str], scratch: &str) -> String {
                 _ => { c.set_norm(norm); c.set_header(hdr); c.set_delim(delim.clone()); if t > 0 { c.set_threads(t); } c.set_max_memory(p[6].parse().unwrap()); }
             }
             let run = |c: &composition::oligo::OligoComputer| match p[7] { "mmap" => c.verif_vectorise_mmap(), "batch" => c.verif_vectorise_batch(), _ => c.vectorise() };
-            if variant == 4 {
+            let plain = PLAIN.load(std::sync::atomic::Ordering::SeqCst);
+            if variant == 4 || (plain && p.iter().map(|x| x.len()).sum::<usize>() % 2 == 1) {
                 // the same object wrote the same output before, with a delimiter of another length (another row length and
-                // header length): the run that counts must remember nothing of it
+                // header length): the run that counts must remember nothing of it (under `hooks` the events of the
+                // earlier run are discarded, the log describes the run that counts)
                 c.set_delim(if delim.len() == 1 { "#@#".to_string() } else { ";".to_string() });
                 if let Err(e) = run(&c) { return format!("ERR earlier run {}", e); }
+                if plain { ktio::verif::take_log(); }
                 c.set_delim(delim.clone());
             }
             if let Err(e) = run(&c) { return format!("ERR {}", e); }
